@@ -6,6 +6,7 @@ from collections.abc import Sequence
 from dataclasses import dataclass
 from typing import (
     Callable,
+    Iterable,
     Dict,
     List,
     Optional,
@@ -900,6 +901,25 @@ def _refresh_elementwise_output_shape(node: ir.Node) -> None:
     out.shape = ir.Shape(merged)
 
 
+def _transpose_reads_from(
+    nodes: Sequence[ir.Node], transpose: ir.Node, members: Iterable[ir.Node]
+) -> bool:
+    """Return whether ``transpose`` reads a value produced by one of ``members``.
+
+    A fold moves ``members`` into the pre-transpose layout and rewires the
+    consumers of its boundary Transposes to their sources. That is only sound
+    for a boundary Transpose whose source keeps its layout, i.e. is produced
+    outside the folded nodes.
+    """
+    src = _first_input(transpose)
+    if src is None:
+        return False
+    producer = _producer_node(nodes, src)
+    if producer is None:
+        return False
+    return any(producer is member for member in members)
+
+
 def _collect_transpose_elementwise_chain(
     nodes: Sequence[ir.Node],
     start_value: ir.Value,
@@ -1244,6 +1264,8 @@ def _collect_add_transpose_forest(
         or not _is_inverse_perm(perm_fwd, perm_inv)
     ):
         return None
+    if any(_transpose_reads_from(nodes, t_node, add_nodes) for t_node in input_transposes):
+        return None
     return add_nodes, perm_fwd, perm_inv, input_transposes, output_transposes
 
 
@@ -1389,6 +1411,9 @@ def remove_redundant_transpose_pairs_ir(graph: ir.Graph) -> None:
                     elif perm_fwd != perm:
                         ok = False
                         break
+                    if _transpose_reads_from(nodes, prod, add_chain + [cur]):
+                        ok = False
+                        break
                     transpose_inputs.append((prod, iv))
                 if not ok:
                     break
@@ -1507,6 +1532,11 @@ def remove_redundant_transpose_pairs_ir(graph: ir.Graph) -> None:
             if forest_match is None:
                 continue
             transpose_nodes, elem_nodes = forest_match
+            if any(
+                _transpose_reads_from(nodes, t_node, elem_nodes)
+                for t_node in transpose_nodes
+            ):
+                continue
             perm1: Optional[List[int]] = None
             ok = True
             for t_node in transpose_nodes:
